@@ -87,6 +87,7 @@ type tblOutcome struct {
 	Out      []AV   // bytes stored to the output, in order
 	Unread   bool   // UnreadByte called (input not consumed)
 	Consumed bool   // ReadByte was called
+	RetVals  []AV   // all returned values (helper calls)
 	RetErr   AV     // for returns: error value
 	RetN     AV     // for returns: n value
 	Und      string // non-empty: undecided, with reason
@@ -156,6 +157,41 @@ func newTblMachine(p *Program, f *ssa.Function, stateField string) (*tblMachine,
 		}
 	}
 	var bad error
+	scan := []*ssa.Function{f}
+	seenFn := map[*ssa.Function]bool{f: true}
+	for i := 0; i < len(scan); i++ {
+		allInstrs(scan[i], func(in ssa.Instruction) {
+			if cc := callCommon(in); cc != nil {
+				if g := staticCallee(cc); g != nil && inSmtp(g) && !seenFn[g] && g.Blocks != nil {
+					seenFn[g] = true
+					scan = append(scan, g)
+				}
+			}
+		})
+	}
+	for _, hf := range scan[1:] {
+		allInstrs(hf, func(in ssa.Instruction) {
+			if fld, base, val := storedField(in); fld != nil && fld.Name() == stateField && strings.HasPrefix(fieldDesc(fld, base), "dataReader.") {
+				m.stateFld = fld
+				if k, ok := constInt(val); ok {
+					stSet[k] = true
+				} else {
+					bad = fmt.Errorf("non-constant store to %s at %s", stateField, p.InstrPos(in))
+				}
+			}
+			if bo, ok := in.(*ssa.BinOp); ok {
+				for _, pair := range [][2]ssa.Value{{bo.X, bo.Y}, {bo.Y, bo.X}} {
+					if bt, isB := pair[0].Type().Underlying().(*types.Basic); isB && (bt.Kind() == types.Byte || bt.Kind() == types.Uint8) {
+						if _, isConst := pair[0].(*ssa.Const); !isConst {
+							if k, ok := constInt(pair[1]); ok {
+								clSet[k] = true
+							}
+						}
+					}
+				}
+			}
+		})
+	}
 	allInstrs(f, func(in ssa.Instruction) {
 		if fld, base, val := storedField(in); fld != nil && fld.Name() == stateField && base == ssa.Value(m.recv) {
 			m.stateFld = fld
@@ -212,6 +248,8 @@ func (m *tblMachine) className(i int) string {
 // returns. oracle decides free booleans (by description); unknown free
 // conditions make the outcome undecided.
 type tblRun struct {
+	noHeader bool // interpreting a helper: no loop header to stop at
+	depth    int
 	m      *tblMachine
 	ev     inEvent
 	env    map[ssa.Value]AV
@@ -286,7 +324,7 @@ func (r *tblRun) exec(b *ssa.BasicBlock, from *ssa.BasicBlock) tblOutcome {
 			for k, v := range newv {
 				r.env[k] = v
 			}
-		} else {
+		} else if !r.noHeader {
 			// entering at the header: loop-carried values are symbols
 			for _, in := range b.Instrs {
 				phi, ok := in.(*ssa.Phi)
@@ -386,7 +424,28 @@ func (r *tblRun) exec(b *ssa.BasicBlock, from *ssa.BasicBlock) tblOutcome {
 				case "(*bufio.Reader).UnreadByte":
 					r.unread = true
 				default:
-					return r.und(in, "call outside the table language")
+					if !inSmtp(g) || g.Blocks == nil || r.depth >= 2 {
+						return r.und(in, "call outside the table language")
+					}
+					// helper of the package: interpret its body with the arguments bound
+					child := &tblRun{m: r.m, ev: r.ev, env: map[ssa.Value]AV{}, state: r.state, out: r.out, unread: r.unread, read: r.read, free: r.free, noHeader: true, depth: r.depth + 1}
+					for i, p := range g.Params {
+						if i < len(x.Call.Args) {
+							child.env[p] = r.val(x.Call.Args[i])
+						}
+					}
+					o := child.exec(g.Blocks[0], nil)
+					if o.Und != "" {
+						return tblOutcome{Und: "in helper " + funcName(g) + ": " + o.Und, UndPos: o.UndPos, Path: r.path}
+					}
+					r.state, r.out, r.unread, r.read = child.state, child.out, child.unread, child.read
+					switch len(o.RetVals) {
+					case 0:
+					case 1:
+						r.env[x] = o.RetVals[0]
+					default:
+						r.env[x] = AV{K: avTuple, T: o.RetVals}
+					}
 				}
 			case *ssa.Extract:
 				t := r.val(x.Tuple)
@@ -429,7 +488,10 @@ func (r *tblRun) exec(b *ssa.BasicBlock, from *ssa.BasicBlock) tblOutcome {
 			case *ssa.If:
 			case *ssa.Return:
 				o := tblOutcome{State: r.state, Out: r.out, Unread: r.unread, Consumed: r.read, Path: r.path}
-				if len(x.Results) == 2 {
+				for _, rv := range x.Results {
+					o.RetVals = append(o.RetVals, r.val(rv))
+				}
+				if len(x.Results) == 2 && !r.noHeader {
 					o.RetN, o.RetErr = r.val(x.Results[0]), r.val(x.Results[1])
 				}
 				return o
@@ -455,7 +517,7 @@ func (r *tblRun) exec(b *ssa.BasicBlock, from *ssa.BasicBlock) tblOutcome {
 		default:
 			return r.und(last, "unexpected block terminator")
 		}
-		if next == r.m.header {
+		if next == r.m.header && !r.noHeader {
 			// loop-carried n must equal n + #emitted, err must be nil
 			o := tblOutcome{Back: true, State: r.state, Out: r.out, Unread: r.unread, Consumed: r.read, Path: r.path}
 			idx := -1
